@@ -64,11 +64,12 @@ def c01():
     c = rt.campaign()
     v = vlib.Verdict("C01")
     text = {p["name"]: p["text"] for p in c["progs"]}
+    cfree = {p["name"]: p.get("cfree") for p in c["progs"]}
     for r in c["runs"]:
         if r["crash"]:
             v.violation("accepted closed program %s dies at run time in mode %s: %s" % (r["prog"], r["mode"], r["crash"][-400:]),
                         {"program": text[r["prog"]], "run": {k: r[k] for k in ("id", "mode", "gomaxprocs", "monitor", "yield", "seed")}, "crash": r["crash"]},
-                        {"program": r["prog"], "mode": r["mode"]})
+                        {"program": r["prog"], "mode": r["mode"], "np_with_contraction": r["mode"] == "np" and cfree.get(r["prog"]) is False})
         elif r["hang"] and not r.get("nonterminating"):
             v.notes.append("run %s did not finish within the time limit (not judged)" % r["id"])
     _model_issues(c, v, ("NoProtocolError", "OneMessagePerChannel", "OneListener"))
